@@ -38,11 +38,13 @@ func checkC03(run *Run, res *Result) {
 	cfg := &run.Cfg
 	type key struct{ m, vb int }
 	fifo := map[key][]emitted{}
-	open := map[key]string{}     // open stream id
-	rolled := map[key]uint64{}   // F after a rollback reopen (events <= F are filtered)
+	open := map[key]string{}   // open stream id
+	rolled := map[key]uint64{} // F after a rollback reopen (events <= F are filtered)
 	lastStartFail := map[key]uint64{}
 	lastEmitStep := map[int]int{} // conn-less: member -> step of last emit, for the multi-connection probe
 	closing := map[int]bool{}
+	deliveredOff := map[string]*journal.Off{}
+	deliveredSt := map[string]int{}
 	for i := range run.Evs {
 		e := &run.Evs[i]
 		k := key{e.M, e.Vb}
@@ -108,7 +110,17 @@ func checkC03(run *Run, res *Result) {
 					}
 				}
 			}
+		case journal.KAck:
+			// the event the consumer still holds must keep carrying its own position
+			if d, ok := deliveredOff[e.ID]; ok && e.Off != nil && (d.UUID != e.Off.UUID || d.Seq != e.Off.Seq || d.Start != e.Off.Start || d.End != e.Off.End) {
+				res.violate("C03", "R5-offset-changed-after-delivery", e.N, fmt.Sprintf("vb=%d seq=%d", e.Vb, e.Seq),
+					"member %d vb %d seq %d: the event was delivered with offset %s; when it was acknowledged later the same event carried %s", e.M, e.Vb, e.Seq, d, e.Off)
+			}
+			if ok := deliveredOff[e.ID] != nil; ok && e.St > deliveredSt[e.ID] {
+				res.probe("ack-in-a-later-step-than-delivery")
+			}
 		case journal.KConsume:
+			deliveredOff[e.ID], deliveredSt[e.ID] = e.Off, e.St
 			q := fifo[k]
 			sig := fmt.Sprintf("vb=%d seq=%d", e.Vb, e.Seq)
 			if len(q) == 0 {
